@@ -2,4 +2,5 @@ SPECIFICATION Spec
 CONSTANTS MaxLines = 3
           Shapes <- ShapesCore
           Endings <- EndingsAll
+          Policies <- UniformPolicies
 INVARIANTS Statement
